@@ -120,5 +120,38 @@ PROPS.update({
     },
 })
 
+PROPS.update({
+    "C07": {
+        "level": "proof",
+        "text": "Kernel-checked step theorems (for every state, hence every reachable one): never_spontaneous (a live actor begins to stop only by consuming a kill, observing zero strong references, dequeuing the stop marker, or an on_run error), ends_only_after_stop_or_crash, weak_dont_count, upgrade_iff, closed_means_unreferenced (the reference count includes handles, queued envelopes and markers, blocked senders, the running handler, operations in flight), and progress lemmas ends_when_unreferenced / ends_when_stopped. On real traces: C07.neverSpontaneous on every trace and endsWhenDue on settled (fully drained) traces; the handles family walks clone/drop/downgrade/upgrade histories.",
+        "note": PROOF_NOTE + " Liveness (the JoinHandle eventually resolves) is stated as progress lemmas plus the settled-trace monitor, not as a temporal theorem.",
+        "technique": "Lean 4 case-analysis theorems on the step function + correspondence on handle histories + Lean monitors on settled real traces",
+        "monitors": ["C07"],
+        "corr": corr(["handles", "mixed", "burst"]),
+        "extract_items": ["lifecycle", "send_paths", "handle_algebra"],
+        "assumptions": COMMON_ASSUME + ["the two sender counts of an ActorRef are treated as one (both closure arms are on_stop(false); break - shape lemma lifecycle_arms)"],
+    },
+    "C08": {
+        "level": "proof",
+        "text": "Kernel-checked for every run: run_only_when_empty (at the on_run poll every message accepted when that poll checked the mailbox has been taken), disable_forever_and_err_fails (on the monitor predicate: no on_run poll after Ok(false); after Err the next hook event is on_stop(false)), disabled_stays, serving_after_disable, continue_rearms. The select order / guard are extracted from src/actor.rs (shape lemma select_order). Monitors C08.runOnlyWhenEmpty / disableForeverAndErrFails on real traces; the idle family drives on_run scripts against message arrivals.",
+        "note": PROOF_NOTE,
+        "technique": "Lean 4 fold-invariant proof + extraction of the select! shape + correspondence with cancel-and-restart of on_run futures",
+        "monitors": ["C08"],
+        "corr": corr(["idle", "mixed", "burst"]),
+        "extract_items": ["lifecycle"],
+        "assumptions": COMMON_ASSUME,
+    },
+    "C11": {
+        "level": "proof",
+        "text": "Kernel-checked: ids_unique for any number of spawns (the allocator constants are extracted from src/lib.rs), alive_true / alive_false (is_alive on a strong handle is true until the actor has ended and false afterwards, for every run), sends_fail_after_end, upgrade_iff. Identity copying and the two-channel liveness predicates are extracted shape lemmas (handle_algebra_shape, forwarders_verbatim). Probes alive/upgrade are script operations compared step by step with the real crate; monitor C11 on real traces.",
+        "note": PROOF_NOTE + " Atomicity of fetch_add is assumed (std); identities of different actors are compared in the multi-actor scripts of C12/C14.",
+        "technique": "Lean 4 theorems on the step function and the allocator + extracted shape lemmas + correspondence with liveness probes",
+        "monitors": ["C11", "C03"],
+        "corr": corr(["handles", "mixed"]),
+        "extract_items": ["handle_algebra", "spawn_with_mailbox_capacity", "forwarders"],
+        "assumptions": COMMON_ASSUME + ["AtomicU64::fetch_add is atomic"],
+    },
+})
+
 NOT_APPLICABLE = {p: "check not built yet in this session (work in progress; see DESIGN.md §12 build order)" for p in
                   ["C%02d" % i for i in range(1, 21)]}
